@@ -147,7 +147,7 @@ def _pair(ctx, A, B):
         check_val(ctx, "value-mixed-dtype", ctx.call(persim.sliced_wasserstein, farr(Bq), A32, M=M), Bq, A, M, "float64 array vs float32 array")
         # integer-typed arrays with large values / unsigned dtypes (only for non-negative diagrams)
         if all(x >= 0 for p in A + B for x in p):
-            for dt, kk in ((np.int64, 4 * 10 ** 9), (np.int32, 50000), (np.uint8, 60)):
+            for dt, kk in ((np.int64, 4 * 10 ** 9), (np.int32, 50000), (np.uint8, 60), (np.uint8, 127), (np.int16, 16000), (np.int8, 63), (np.int32, 10 ** 9)):   # birth + death beyond the dtype's range
                 Ai = (np.array(A, dtype=np.int64).reshape(-1, 2) * kk).astype(dt)
                 Bi = (np.array(B, dtype=np.int64).reshape(-1, 2) * kk).astype(dt)
                 check_val(ctx, "value-int-dtype", ctx.call(persim.sliced_wasserstein, Ai, Bi, M=M), Ai.astype(float).tolist(), Bi.astype(float).tolist(), M, "%s arrays x %d" % (np.dtype(dt), kk))
